@@ -48,6 +48,17 @@ fn check(s: &Sharing, case: &mut Case) -> Result<(), Fail> {
     let oc = reparse(&c, "c03:compressed-unparseable", "compressed output")?;
     ensure!(ou == p, "c03:plain-mismatch", "plain output parses differently from the model: {}", diff(&p, &ou));
     ensure!(oc == p, "c03:compressed-mismatch", "compressed output parses differently from the model: {}", diff(&p, &oc));
+    // the writer-based entry point on a stream that does not start at 0 (e.g. after a DNS-over-TCP length prefix)
+    if s.filler_at % 4 == 1 {
+        case.class("non-zero-origin");
+        let k = 2 + (s.filler_at as usize % 9);
+        let mut cur = std::io::Cursor::new(vec![0xEEu8; k]);
+        cur.set_position(k as u64);
+        lib("write_compressed_to", || pk.write_compressed_to(&mut cur))?.map_err(|e| Fail::new("c03:compressed-failed", format!("write_compressed_to at offset {}: {:?}", k, e)))?;
+        let v = cur.into_inner();
+        let ow = reparse(&v[k.min(v.len())..], "c03:compressed-unparseable@origin", "compressed output written at a non-zero stream offset")?;
+        ensure!(ow == p, "c03:compressed-mismatch@origin", "compressed output written at stream offset {} parses differently: {}", k, diff(&p, &ow));
+    }
     Ok(())
 }
 
